@@ -839,11 +839,19 @@ def d8(ctx, rep):
         rep.undecided('D8.const', prog.cls('copulas.univariate.base.Univariate').methods.get('fit') or next(iter(prog.functions.values())), 'Univariate', 'no method named _is_constant found', construct='def _is_constant')
     # fit side: exact test
     cc = prog.method('copulas.univariate.base.Univariate', '_check_constant_value')
-    exact = any(isinstance(x, ast.Compare) and len(x.ops) == 1 and isinstance(x.ops[0], ast.Eq) and const_value(x.comparators[0]) == 1
-                and isinstance(x.left, ast.Call) and call_name(x.left) == 'len' for x in ast.walk(cc.node)) and any(
-        isinstance(x, ast.Call) and call_name(x) == 'unique' for x in ast.walk(cc.node))
-    rep.check('D8.const', cc, cc.node.name, exact, 'fit: constant iff exactly one unique value',
-              'fit no longer decides constancy by `len(np.unique(X)) == 1`', construct='fit-side constancy test')
+    tolerant = [x for x in ast.walk(cc.node) if isinstance(x, ast.Call) and call_name(x) in TOLERANT]
+    counts_unique = any(isinstance(x, ast.Compare) and len(x.ops) == 1 and isinstance(x.ops[0], (ast.Eq, ast.NotEq, ast.Gt, ast.Lt, ast.GtE, ast.LtE))
+                        and const_value(x.comparators[0]) in (1, 2) and isinstance(x.left, (ast.Call, ast.Name)) for x in ast.walk(cc.node)) and any(
+        isinstance(x, ast.Call) and call_name(x) in ('unique', 'nunique') for x in ast.walk(cc.node))
+    if tolerant:
+        rep.bad('D8.const', cc, tolerant[0], f'fit decides constancy with {call_name(tolerant[0])}(), a tolerance test: data that is not constant is fitted as a point mass',
+                construct='fit-side constancy test')
+    elif counts_unique:
+        rep.ok('D8.const', cc, cc.node.name, 'fit: constant iff exactly one unique value', construct='fit-side constancy test')
+    else:
+        rep.bad('D8.const', cc, cc.node.name, 'fit no longer decides constancy by counting the unique values', construct='fit-side constancy test') if any(
+            isinstance(x, ast.Call) and call_name(x) in ('min', 'max', 'std', 'var', 'ptp', 'all') for x in ast.walk(cc.node)) else \
+            rep.undecided('D8.const', cc, cc.node.name, 'how fit decides that the data is constant was not recognised', construct='fit-side constancy test')
 
 
 # ---------------------------------------------------------------------------- D9 pickle
